@@ -275,6 +275,7 @@ def run(ctx):
                    "lazy-initialised `%s` is written only by its initialiser(s)" % name, not extra,
                    "writers: %s" % sorted(writers))
             flag = LAZY[name][2]
+            nflag = 0
             if flag is not None:
                 for wn in sorted(writers & allowed):
                     wf = [x for x in P.by_name.get(wn, []) if P.rel(x.file) == file_]
@@ -283,8 +284,12 @@ def run(ctx):
                     wf = wf[0]
                     fl_stores = [a for a in wf.body.walk() if is_assign(a) and a.c[0].strip().k == "DeclRefExpr"
                                  and a.c[0].strip().name == flag and a.c[1].cv not in (0, None)]
+                    # __atomic_store_n/exchange/... (&flag, ...) publish the flag as well
+                    fl_stores += [a for a in wf.body.walk() if a.k == "AtomicExpr" and a.get("atomic") != "load"
+                                  and a.c and _addr_of_global(a.c[0]) == flag]
                     if not fl_stores:
                         continue
+                    nflag += 1
 
                     def is_tab_store(e, name=name):
                         if not is_assign(e):
@@ -297,6 +302,9 @@ def run(ctx):
                     ctx.ob("R7.global", key + "|flag-last", P.where(fl_stores[0]),
                            "`%s` is published (flag `%s` set) only after its last store in %s" % (name, flag, wn),
                            not late)
+                ctx.ob("R7.global", key + "|flag-set", file_,
+                       "an initialiser of `%s` publishes the flag `%s` (plain or atomic store)" % (name, flag),
+                       nflag > 0)
             continue
         ctx.bad("R7.global", key, "%s:%d" % (file_, g["line"]),
                 "mutable file-scope variable `%s` is neither thread-local nor an accepted idempotent "
@@ -327,6 +335,15 @@ def _guards(seek, read):
     return False
 
 
+def _addr_of_global(e):
+    x = e.strip_casts()
+    if x.k == "UnaryOperator" and x.op == "&":
+        y = x.c[0].strip_casts()
+        if y.k == "DeclRefExpr" and y.get("dk") == "global":
+            return y.name
+    return None
+
+
 def _writers(P, name, file_):
     out = set()
     for fn in P.functions.values():
@@ -341,6 +358,10 @@ def _writers(P, name, file_):
                 tgt = n.c[0]
             elif n.k == "CallExpr" and n.callee in ("memset", "memcpy") and n.args():
                 tgt = n.args()[0]
+            elif n.k == "AtomicExpr":
+                if n.get("atomic") != "load" and n.c and _addr_of_global(n.c[0]) == name and P.rel(fn.file) == file_:
+                    out.add(fn.name)
+                continue
             elif n.k == "UnaryOperator" and n.op == "&":
                 # address taken (passed as an out-parameter)
                 x = n.c[0].strip_casts()
